@@ -37,6 +37,7 @@ CAT = [
     ("string", "a.b", '"dot"'),  # names holding characters with a meaning in regular expressions / templates
     ("string", "x+y", "{plus}"),
     ("entry", "g", "k7", [("m1", "a.b"), ("m2", "axb"), ("m3", "x+y"), ("m4", "xy"), ("m5", "x++y"), ("m6", "{a.b}"), ("m7", "%s"), ("m8", "a.b # x+y")]),
+    ("entry", "h", "s", [("x", "s"), ("y", "t"), ("ID", "s")]),  # an entry whose citation key is the name of a string; a field called ID
     ("garbage", "@string{oops"),  # a definition that breaks off (a failed block): what follows is defined and resolved as ever
 ]
 
